@@ -86,6 +86,16 @@ def parseItem? (s : String) : Option (Nat × Hdr) :=
     pure (d, ⟨t, b⟩)
   | _ => none
 
+def ptreeStrings (p : Params) : List (List Hdr) → List (Nat × Hdr) → List String
+  | _, [] => []
+  | known, (i, h) :: hs =>
+    match known[i]? with
+    | none => "panic" :: ptreeStrings p known hs
+    | some chain =>
+      let v := headerVerdict p chain h
+      let s := if v ≠ .ok && v ≠ .assert && v ≠ .panic && ctxFailCount p chain h true ≥ 2 then "reject:multi" else verdictStr v
+      s :: ptreeStrings p (if v = .ok then known ++ [h :: chain] else known) hs
+
 def handleNext (rest : List String) : String :=
   match parseParams? rest with
   | some (p, newTime :: hdrs) =>
@@ -205,6 +215,13 @@ def handle : List String → String
       match hexToNat? hb, ht.toInt?, depth.toNat?, main.mapM parseHdr?, side.mapM parseHdr? with
       | some hb, some ht, some d, some m, some sd => triple p (sd ++ m.drop d) ⟨ht, hb⟩
       | _, _, _, _, _ => "bad-op"
+    | _ => "bad-op"
+  | "ptree" :: rest =>
+    match parseParams? rest with
+    | some (p, g :: hdrs) =>
+      match parseHdr? g, hdrs.mapM parseItem? with
+      | some g, some hs => ",".intercalate (ptreeStrings p [[g]] hs)
+      | _, _ => "bad-op"
     | _ => "bad-op"
   | "nextn" :: rest => handleNext rest
   | "mtpn" :: ts => handleMtp ts
